@@ -164,6 +164,37 @@ def run(c):
     c.extra["stress_requests"] = sum(1 for r in srows if r["e"] == "req")
     c.extra["stress_connect_errors"] = len(failed_conns)
     allrows = rows + srows
+    # aborted-before-accept: the client resets an attributed connection at once; the listener may never see it, so
+    # its record is never looked up; later a DIRECT connection reuses that source port
+    asteps, ameta = [], []
+    nab = 400 if not thorough else 1600
+    brs = [[] for _ in range(4)]       # four client threads outpace the accept loop, so resets hit queued connections
+    for i in range(nab):
+        brs[i % 4] += [{"op": "connect", "conn": "ab%d" % i, "attr": {k2: IDENT["rootws"][k2] for k2 in ("uid", "admin", "dip", "dport")}},
+                       {"op": "close", "conn": "ab%d" % i}]
+    asteps.append({"op": "parallel", "branches": brs})
+    asteps.append({"op": "wait_audit_settled", "tag": "after-aborts", "timeout_ms": 15000})
+    for i in range(nab):
+        u = "abu%d" % i
+        asteps += [{"op": "connect", "conn": u, "port_of": "ab%d" % i, "attr": None, "wait": True, "wait_ms": 1000},
+                   {"op": "request", "conn": u, "id": u + "_r", "method": "GET", "target": "/stale/%d" % i, "headers": [["Host", "h"]]},
+                   {"op": "close", "conn": u}]
+        ameta += [{"e": "conn", "conn": u, "attributed": False, "elevated": False, "dest": "none"},
+                  {"e": "req", "conn": u, "id": u + "_r"}]
+    aev, ad, _ = rig.run_rig({"steps": asteps, "drain_ms": 300}, "c07_abort", timeout=600)
+    afailed = {e["conn"] for e in aev if e["e"] == "ConnectError"}
+    ameta = [m for m in ameta if m["conn"] not in afailed]
+    arows = rows_from(aev, ameta)
+    c.extra["aborted_connects"] = nab
+    c.extra["stale_records_after_aborts"] = next((e["n"] for e in aev if e["e"] == "AuditLen"), None)
+    okA, whyA, resA = validate_trace(c, "SingleUseTrace", "SingleUseTrace.cfg", arows, "c07_abort", count=1, timeout=300)
+    if not okA:
+        inherited = [r for r in arows if r["e"] == "req" and (r["relayed"] or r["status"] != 421)]
+        c.violation("a direct connection reusing the source port of an attributed connection that was reset at once "
+                    "inherits that connection's identity although the listener had caught up (%d of %d relayed as root)"
+                    % (len(inherited), nab),
+                    {"broken": whyA.replace("invariant ", ""), "scenario": "aborted-before-accept"},
+                    {"steps": asteps[:6], "inherited": inherited[:3]})
     remaining = allrows
     unreproduced = 0
     for _round in range(6):
